@@ -24,7 +24,7 @@ Section StepX.
   Variables (rcol : nat -> Z) (hcol : nat -> Z) (lcol : nat -> Z) (hlen k : nat).
   Hypothesis Hk : (1 <= k <= H)%nat.
 
-  Lemma step_row_length_x : forall excl,
+  Lemma step_row_length_x : forall excl : bool,
     length (Model.step_row ci cd cs (map rcol (seq 0 R)) (map hcol (seq 0 H)) hlen excl k (map lcol (seq 0 (S R)))) = S R.
   Proof.
     intros [|].
@@ -33,7 +33,7 @@ Section StepX.
   Qed.
 
   (* the float expression the interpreted loop body leaves at entry i, either setting of exclude_last *)
-  Lemma step_entry_src_x : forall excl s i, (i < S R)%nat ->
+  Lemma step_entry_src_x : forall (excl : bool) s i, (i < S R)%nat ->
     (if (Z.of_nat k - (if excl then 0 else 1) <? Z.of_nat hlen)%Z
      then fmin_list (map (fun j =>
             fadd (ofx s (Model.del_entry cd i j))
